@@ -79,6 +79,10 @@ class ImageBatch(DataTensor):
         kwargs["grid"] = self._grid if grid is None else grid
         return super()._make_instance(data, **kwargs)
 
+    def _regrid(self: TImageBatch, data: Tensor, grid: Sequence[Grid]) -> TImageBatch:
+        r"""Create new instance of data sampled on other grids. Can be overridden by subclasses."""
+        return self._make_instance(data, grid)
+
     def _make_subitem(self, data: Tensor, grid: Grid) -> Image:
         r"""Create Image in __getitem__. Can be overridden by subclasses to return a subtype."""
         return Image(data, grid)
@@ -439,7 +443,7 @@ class ImageBatch(DataTensor):
         size = cat_scalars(size, *args, num=self.sdim, device=self.device)
         data = U.grid_resize(self, size, mode=mode, align_corners=align_corners)
         grid = tuple(grid.resize(size, align_corners=align_corners) for grid in self._grid)
-        return self._make_instance(data, grid)
+        return self._regrid(data, grid)
 
     def resample(
         self: TImageBatch,
@@ -476,7 +480,7 @@ class ImageBatch(DataTensor):
         out_spacing = cat_scalars(out_spacing, *args, num=self.sdim, device=self.device)
         data = U.grid_resample(self, in_spacing=in_spacing, out_spacing=out_spacing, mode=mode)
         grid = tuple(grid.resample(out_spacing) for grid in self._grid)
-        return self._make_instance(data, grid)
+        return self._regrid(data, grid)
 
     def avg_pool(
         self: TImageBatch,
@@ -505,7 +509,7 @@ class ImageBatch(DataTensor):
             )
             for grid in self._grid
         )
-        return self._make_instance(data, grid)
+        return self._regrid(data, grid)
 
     def downsample(
         self: TImageBatch,
@@ -547,7 +551,7 @@ class ImageBatch(DataTensor):
             grid.downsample(levels, dims=dims, min_size=min_size, align_corners=align_corners)
             for grid in self._grid
         )
-        return self._make_instance(data, grid)
+        return self._regrid(data, grid)
 
     def upsample(
         self: TImageBatch,
@@ -581,7 +585,7 @@ class ImageBatch(DataTensor):
         grid = tuple(
             grid.upsample(levels, dims=dims, align_corners=align_corners) for grid in self._grid
         )
-        return self._make_instance(data, grid)
+        return self._regrid(data, grid)
 
     def pyramid(
         self: TImageBatch,
@@ -663,7 +667,7 @@ class ImageBatch(DataTensor):
             data = U.grid_sample(self, torch.cat(points, dim=0), mode=mode, align_corners=align_corners)
         # Construct image pyramid by repeated downsampling
         pyramid = {}
-        batch = self._make_instance(data, grids)
+        batch = self._regrid(data, grids)
         if start == 0:
             pyramid[0] = batch
         for level in range(1, end + 1):
@@ -698,7 +702,7 @@ class ImageBatch(DataTensor):
         """
         data = U.crop(self, margin=margin, num=num, mode=mode, value=value)
         grid = tuple(grid.crop(margin=margin, num=num) for grid in self._grid)
-        return self._make_instance(data, grid)
+        return self._regrid(data, grid)
 
     def pad(
         self: TImageBatch,
@@ -725,7 +729,7 @@ class ImageBatch(DataTensor):
         """
         data = U.pad(self, margin=margin, num=num, mode=mode, value=value)
         grid = tuple(grid.pad(margin=margin, num=num) for grid in self._grid)
-        return self._make_instance(data, grid)
+        return self._regrid(data, grid)
 
     def center_crop(self: TImageBatch, size: Union[int, Array], *args: int) -> TImageBatch:
         r"""Crop image to specified maximum size.
@@ -745,7 +749,7 @@ class ImageBatch(DataTensor):
         size = cat_scalars(size, *args, num=self.sdim, device=self.device)
         data = U.center_crop(self.tensor(), size)
         grid = tuple(grid.center_crop(size) for grid in self._grid)
-        return self._make_instance(data, grid)
+        return self._regrid(data, grid)
 
     def center_pad(
         self: TImageBatch,
@@ -773,7 +777,7 @@ class ImageBatch(DataTensor):
         size = cat_scalars(size, *args, num=self.sdim, device=self.device)
         data = U.center_pad(self, size, mode=mode, value=value)
         grid = tuple(grid.center_pad(size) for grid in self._grid)
-        return self._make_instance(data, grid)
+        return self._regrid(data, grid)
 
     def region_of_interest(
         self: TImageBatch,
@@ -796,7 +800,7 @@ class ImageBatch(DataTensor):
         """
         data = U.region_of_interest(self, start, size, padding=padding, value=value)
         grid = tuple(grid.region_of_interest(start, size) for grid in self._grid)
-        return self._make_instance(data, grid)
+        return self._regrid(data, grid)
 
     def conv(
         self: TImageBatch,
@@ -928,7 +932,7 @@ class ImageBatch(DataTensor):
         )
         if len(arg) == 1:
             arg = tuple(arg) * len(self)
-        return self._make_instance(data, arg)
+        return self._regrid(data, arg)
 
     def __repr__(self) -> str:
         return type(self).__name__ + f"(data={self.tensor()!r}, grid={self.grids()!r})"
